@@ -164,6 +164,11 @@ def rule_group(ctx, R):
             # from this definition, the loop head cannot be reached again without completing the start
             ok = db == sb or not reaches_without(cfg, [M.head], db, cut_blocks=[sb]) or not reaches_without(cfg, cfg.succ[db], M.head, cut_blocks=[sb])
             R.check(ok, "parse:group:%s" % nm, "the pending command's %s is assigned only as part of an accepted command start (no path back to the loop head that skips the start)" % nm, s["span"]["at"])
+    # an accepted command start (re)initialises every field of the pending command: from the start, no path reaches
+    # the loop head again without assigning kind, dot count, location and raw text
+    for nm, key in (("kind", M.kind), ("dot count", M.dot), ("location", M.loc), ("raw text", M.raw)):
+        dblocks = [db for (db, di) in vars_.def_sites(key) if db in M.loop]
+        R.check(bool(dblocks) and not reaches_without(cfg, [sb], M.head, cut_blocks=dblocks), "parse:start:resets:%s" % nm.replace(" ", "_"), "every accepted command start assigns the pending command's %s before the next character is read (no value of the previous command or of ignored text survives)" % nm, b.blocks[sb]["stmts"][M.start[1]]["span"]["at"])
     # the skip test for start syllables without a later end syllable precedes every such assignment:
     # find the `continue` edge of the comparison max_pos[..] <= i
     found = False
@@ -292,8 +297,24 @@ def rule_defs(ctx, R):
             x = ss[0]
         vals = [v for _, v in seen]
         R.check(any(v == "(%s Add K1)" % I for v in vals) and any(v.endswith(" Add K1)") and I not in v for v in vals), "parse:newline:updates", "on a line feed the line counter is incremented and the line start becomes the next index: %s" % vals, b.blocks[tgt]["term"]["span"]["at"])
-    # no other definition of the line-start / line-count variables inside the loop than under the newline edge
-    # (found through the location expression)
+        # ... and only there: every definition, inside the loop, of the line counter and of the line-start index
+        # is reachable only through the line-feed edge
+        tracked = {}
+        for l, ds in vars_.defs.items():
+            if b.lty(l) != "usize" or l not in b.local_names():
+                continue
+            for d in ds:
+                if d[0] == "assign" and d[1] in M.loop:
+                    v = roles.of_origin(org.of_rvalue(d[3]["r"], d[1], d[2]))
+                    if v == "(%s Add K1)" % I:
+                        tracked.setdefault(l, "line start")
+                    elif v.endswith(" Add K1)") and I not in v and "LOOPVAR" in v and l != M.hangul[1] and ("L", l) not in (M.dot, M.hangul, M.kind):
+                        tracked.setdefault(l, "line count")
+        if R.anchor(sorted(tracked.values()) == ["line count", "line start"], "newline_vars", "the line counter and the line-start index (found %s)" % sorted(tracked.values())):
+            for l, what in sorted(tracked.items()):
+                for d in vars_.defs.get(l, []):
+                    if d[1] in M.loop:
+                        R.check(not reaches_without(cfg, [M.head], d[1], cut_edges=nl_edges), "parse:newline:only:%s" % what.replace(" ", "_"), "the %s changes only on a line feed" % what, (d[3].get("span") or {}).get("at"))
 
 
 def rule_firstheart(ctx, R):
@@ -738,3 +759,11 @@ def rule_render(ctx, R):
 
 
 RULES.append(("C04.RENDER", "what the parser built is shown faithfully: decision tables of the Debug and Display renderings of an area tree (shared with C08)", rule_render))
+
+
+def rule_listfmt(ctx, R):
+    from . import p_c08
+    return p_c08.rule_listing(ctx, R)
+
+
+RULES.append(("C04.LISTFMT", "the `check` listing line prints kind, syllable count, dot count and area, in that order (shared with C08.LISTING)", rule_listfmt))
